@@ -2,7 +2,12 @@ import vlib
 
 class P(vlib.Prop):
     id = "C06"
-    rule = ("bytes stage (the byte-level codec, Model/TarBytes.v): small filesystems chosen for the corners of the tar encoding (names of 99/100/101/155/156/255/256/300 bytes, "
+    rule = ("e2e stage: real builds — build.New over a tarfs and BuildLayer (packages from a synthetic signed repository with directories, files of sizes around the block size, "
+            "setuid/setgid/sticky modes, owners with and without accounts, extended attributes, symlinks, hard links recorded in the package, long and non-ASCII names; accounts; "
+            "directory / empty-file / symlink / permissions / hardlink path mutations), i.e. the REAL ImageLayoutToLayer with checkPaths and file creation; the filesystem the build left "
+            "behind is read back through the interface, the layer BuildLayer hands out is untarred by the harness's own reader, and both go to the same check as the layers stage "
+            "(quick 35 builds, thorough 410). "
+            "bytes stage (the byte-level codec, Model/TarBytes.v): small filesystems chosen for the corners of the tar encoding (names of 99/100/101/155/156/255/256/300 bytes, "
             "paths that do and do not split at a '/', non-ASCII names, uid/gid around 8^7 and beyond 2^31, sizes 0/1/511/512/513/1023/1024/1025, extended attributes with "
             "any bytes and with record lengths around 99/100 and 999/1000, link targets of 100/101 bytes, device numbers up to and beyond 8^7 (GNU fallback), mtimes 0, 8^11-1, 8^11, negative, "
             "year 1, passwd names of 32/33 bytes and non-ASCII), the filesystems of the layers corpus and random ones are serialised by the REAL walkFS+writeTar to an uncompressed "
@@ -24,28 +29,34 @@ class P(vlib.Prop):
         dict(name="layers", cmd="c06", args=lambda t, s: []),
         dict(name="layerfile", cmd="c06", args=lambda t, s: ["-stage", "layerfile"]),
         dict(name="bytes", cmd="c06", args=lambda t, s: ["-stage", "bytes"]),
+        dict(name="e2e", cmd="c06", args=lambda t, s: ["-stage", "e2e"]),
     )
     watch = ("pkg/build/tarball.go",)
     assumptions = (
-        "the filesystem state is what the FullFS interface reports (ReadDir/Info/Readlink/Readnod/ListXattrs/ReadFile); which names are hard links of which is known from the operations the harness performed (the interface exposes no inode numbers)",
-        "a node whose Go ModTime is the zero time.Time (never set) has modification time 0 (Unix epoch), which is how archive/tar writes it",
+        "the filesystem state is what the FullFS interface reports (ReadDir/Info/Readlink/Readnod/ListXattrs/ReadFile); which names are hard links of which is known from the operations the harness performed, from the TypeLink members of the synthetic packages and from the hardlink path mutations (the interface exposes no inode numbers)",
+        "a node whose Go ModTime is the zero time.Time (never set, or set to 0001-01-01T00:00:00Z) has modification time 0 (Unix epoch), which is how archive/tar writes it (c06_bytes_envelope_boundary has the witness)",
         "passwd/group are parsed by pkg/passwd; the model receives the (id, name) pairs in file order",
-        "file content is compared through a 56-bit prefix of its SHA-256 and its length",
-        "gzip and sha256 are oracles in c06_digest; the byte-level codec (archive/tar, pgzip) is exercised by the harness's independent reader, not proved",
+        "file content is compared through a 56-bit prefix of its SHA-256 and its length (layers, e2e); the bytes stage compares the content itself",
+        "gzip and sha256 are oracles in c06_digest; pgzip and sha256 are exercised by the harness's independent reader, not proved",
+        "archive/tar is the one of the Go toolchain the harness is built with (1.23); Model/TarBytes.v is a hand transcription of its Writer and Reader, compared byte for byte with them on every run",
     )
-    level_text = ("c06_extract_walk: for every tree of directories, regular files, symlinks and character devices with distinct child names (any depth, any "
-                  "names, any mode bits incl. setuid/setgid/sticky, any uid/gid, any xattrs on files and directories, any mtime) the reference extractor "
-                  "applied to the model's walk returns exactly the tree; c06_walk_complete_nodup: the walk's paths are strictly "
-                  "increasing in component-wise bytewise order, hence each listed once, siblings sorted, a directory before its contents (that every path is listed follows inside the envelope from c06_extract_walk); c06_names: Uname/Gname follow passwd/group; c06_digest over "
-                  "oracles; c06_validator_decides: the validator run on the implementation's layers decides the readable statement. The full statement is "
-                  "refuted for hard links (C06-F1, C06-F2), sub-second mtimes (C06-F3) and xattrs on character devices (C06-F4), each with a witness replayed "
-                  "on the real code. The model is tied to walkFS/writeTar by differential comparison of headers and of independently untarred layer entries.")
+    level_text = ("c06_layer_bytes_faithful: for every tree in the envelope of c06_extract_walk_links with whole-second times whose walk lies in the byte envelope, the model's tar stream of the layer "
+                  "(walk, header synthesis with the PAX prefix read from tarball.go, archive/tar's Writer with header.Format as walkFS leaves it, the final Close) is read back by the model of "
+                  "archive/tar's Reader as members standing for entries that extract to exactly the tree (paths strictly increasing, names from passwd/group). Its parts: c06_bytes_roundtrip "
+                  "(read_archive (write_archive ms) = the members, for all members in the stated envelope: names of any length and bytes, ids beyond 2^21, sizes beyond 8 GiB, negative and large "
+                  "times, long user/group names, extended attributes with any bytes), c06_bytes_view, c06_bytes_entries, c06_bytes_blocks (whole 512-byte blocks, two zero blocks at the end), "
+                  "c06_bytes_injective (canonicity), c06_bytes_octal / c06_bytes_header_block / c06_bytes_pax_record (fields, checksum, self-counting record length), c06_bytes_xattr_prefix, "
+                  "c06_bytes_envelope_boundary; c06_extract_walk / c06_extract_walk_links: the reference extractor applied to the walk returns exactly the tree (recorded hard links whose targets "
+                  "sort first included); c06_walk_complete_nodup; c06_names; c06_digest over oracles; c06_validator_decides. The full statement is refuted for hard links (C06-F1, C06-F2, C06-F5), "
+                  "sub-second mtimes (C06-F3) and xattrs on character devices (C06-F4), each with a witness replayed on the real code. The model is tied to the code by goextract (xattr prefix and "
+                  "its guard, header.Format, tw.Close) and by differential comparison: walk headers, layer entries, the very bytes of the tar stream and the members archive/tar reads from them.")
     level_note = ("trusted: Coq kernel, Go harness/printer (incl. its read-back of the filesystem state and its tar reader); modelled not verified: Go text of "
-                  "walkFS/writeTar/newLayerWriter, tar.FileInfoHeader, archive/tar and pgzip byte codecs, sha256; digest/diff-id/size of real bytes are "
+                  "walkFS/writeTar/newLayerWriter, tar.FileInfoHeader, archive/tar's Writer and Reader (transcribed by hand, compared on bytes), pgzip, sha256; digest/diff-id/size of real bytes are "
                   "recomputed by the harness (exploration, not proof); correspondence is differential testing")
     design_ref = "DESIGN.md 7 C10/C06, Appendix A.3"
-    modelled_not_verified = ("walkFS header synthesis, fs.WalkDir order and the tarfs hard-link side table are modelled by hand (Model/Tar.v); "
-                             "archive/tar's encoding (incl. ModTime rounding), pgzip and sha256 are observed through the emitted bytes only; "
-                             "ImageLayoutToLayer's checkPaths and file creation are not exercised (the hook composes newLayerWriter+writeTar+finalize)")
+    modelled_not_verified = ("walkFS header synthesis, fs.WalkDir order and the tarfs hard-link side table are modelled by hand (Model/Tar.v); archive/tar's Writer (USTAR, PAX, GNU; ModTime "
+                             "rounding) and Reader are modelled by hand (Model/TarBytes.v); the GNU fallback (device numbers of 8^7 and more) and GNU/STAR/V7 reading are compared with the real "
+                             "code but outside the round-trip theorem; GNU sparse files are outside the model (the Writer cannot produce them); pgzip and sha256 are observed through the emitted "
+                             "bytes only")
 
 PROP = P()
